@@ -309,3 +309,141 @@ Example sm_nonvacuous :
   /\ map snd (sm_run (Z * Z) project sm_ex_outside 30 (-1) (sm_incr_calls (fun _ => 1000000) 16))
      = repeat false 14 ++ [true; true].
 Proof. vm_compute. repeat split. Qed.
+
+(* ================= every call, resets included: exact characterisation ================= *)
+Section SMReset.
+  Variable State : Type.
+  Variable project : Z -> State.
+  Variable outside : State -> bool.
+  Variable maxf : Z.
+  Notation G := (sm_G State project outside maxf).
+  Notation good := (sm_good State project outside maxf).
+  Notation ok := (sm_ok State project outside).
+
+  (* ANY call: the search starts at xx = max x (last' + 1), last' = -1 on a reset (x = max_logged); it returns the
+     first admissible index >= xx (which becomes the new pointer), else exhaustion with pointer max xx (maxf+1) *)
+  Theorem sm_step_index_char last x ml :
+    sm_step_index State project outside maxf last x ml =
+      let xx := Z.max x ((if x =? ml then -1 else last) + 1) in
+      match G xx with
+      | [] => (None, Z.max xx (maxf + 1))
+      | i :: _ => (Some i, i)
+      end.
+  Proof.
+    unfold sm_step_index. cbn zeta. set (xx := Z.max x ((if x =? ml then -1 else last) + 1)).
+    rewrite sm_search_goods. fold (G xx). destruct (G xx); [f_equal; lia | reflexivity].
+  Qed.
+
+  (* increasing drive x = 0,1,2,... WITH resets: a reset at call x is harmless when every index below x
+     (and <= maxf) is admissible, i.e. when nothing has been skipped before the reset *)
+  Definition sm_allok_below (x : Z) : Prop := forall i, 0 <= i < x -> i <= maxf -> ok i = true.
+
+  Lemma sm_run_index_resets ml :
+    (forall x, ml x = x -> sm_allok_below x) ->
+    forall n x' last, Z.of_nat x' <= last + 1 ->
+      (sm_allok_below (Z.of_nat x') -> last + 1 = Z.of_nat x' \/ maxf < Z.of_nat x') ->
+      sm_run_index State project outside maxf last (map (fun k => (Z.of_nat k, ml (Z.of_nat k))) (seq x' n))
+        = sm_expect n (G (last + 1)).
+  Proof.
+    intros Hml. induction n as [|n IH]; intros x' last Hle Hinv; [reflexivity|].
+    cbn [seq map sm_run_index sm_expect fst snd]. cbn zeta. set (x := Z.of_nat x') in *.
+    rewrite sm_step_index_char. cbn zeta.
+    (* the search start: either last + 1, or (on a harmless reset past maxf) some point past maxf *)
+    set (xx := Z.max x ((if x =? ml x then -1 else last) + 1)).
+    assert (Hxx : xx = last + 1 \/ (maxf < xx /\ maxf < last + 1)).
+    { unfold xx. destruct (x =? ml x) eqn:E.
+      - apply Z.eqb_eq in E. symmetry in E. destruct (Hinv (Hml x E)) as [H|H]; [left; lia | right; lia].
+      - left. lia. }
+    assert (HG : G xx = G (last + 1)).
+    { destruct Hxx as [->|[H1 H2]]; [reflexivity|]. rewrite !sm_G_empty by lia. reflexivity. }
+    rewrite HG. replace (Z.of_nat (S x')) with (x + 1) in * by (unfold x; lia).
+    destruct (G (last + 1)) as [|i rest] eqn:EG; cbn [fst snd].
+    - f_equal. rewrite (IH (S x')).
+      + rewrite sm_G_empty by lia. reflexivity.
+      + replace (Z.of_nat (S x')) with (x + 1) by (unfold x; lia). lia.
+      + replace (Z.of_nat (S x')) with (x + 1) by (unfold x; lia). intros Hall.
+        right. assert (Hb : sm_allok_below x) by (intros j Hj; apply Hall; lia).
+        destruct (Hinv Hb) as [E|E]; [|lia].
+        destruct (Z_le_gt_dec x maxf) as [Hxm|]; [exfalso | lia].
+        rewrite E in EG. rewrite sm_G_unfold in EG by lia.
+        rewrite (Hall x) in EG by lia. discriminate.
+    - destruct (sm_G_head _ _ _ _ _ _ _ EG) as [Hi [Hoki Hrest]]. f_equal. rewrite (IH (S x')).
+      + rewrite Hrest. reflexivity.
+      + replace (Z.of_nat (S x')) with (x + 1) by (unfold x; lia). lia.
+      + replace (Z.of_nat (S x')) with (x + 1) by (unfold x; lia). intros Hall.
+        assert (Hb : sm_allok_below x) by (intros j Hj; apply Hall; lia).
+        destruct (Hinv Hb) as [E|E]; [|right; lia]. left.
+        destruct (Z_le_gt_dec x maxf) as [Hxm|]; [|lia].
+        rewrite E in EG. rewrite sm_G_unfold in EG by lia. rewrite (Hall x) in EG by lia.
+        injection EG as <- _. reflexivity.
+  Qed.
+
+  Theorem sm_increasing_with_resets : forall ml,
+    (forall x, ml x = x -> forall i, 0 <= i < x -> i <= maxf -> outside (project i) = false) ->
+    forall n,
+    sm_run_index State project outside maxf (-1) (sm_incr_calls ml n) =
+      firstn n (map Some good ++ repeat None n).
+  Proof.
+    intros ml Hml n. unfold sm_incr_calls. rewrite (sm_run_index_resets ml).
+    - change (-1 + 1) with 0. rewrite sm_G_0. apply sm_expect_firstn. lia.
+    - intros x E i Hi Him. unfold sm_ok. rewrite (Hml x E i Hi Him). reflexivity.
+    - cbn. lia.
+    - intros _. left. reflexivity.
+  Qed.
+
+  (* enumerations without inadmissible indices (1-d chains, centred n-d grids under the full box): resets are harmless *)
+  Corollary sm_all_admissible_resets :
+    (forall i, 0 <= i <= maxf -> outside (project i) = false) ->
+    forall ml n,
+    sm_run_index State project outside maxf (-1) (sm_incr_calls ml n) =
+      firstn n (map Some good ++ repeat None n).
+  Proof. intros Hall ml n. apply sm_increasing_with_resets. intros x _ i Hi Him. apply Hall. lia. Qed.
+End SMReset.
+
+(* ... and harmful otherwise: after a skipped index a reset at call x restarts the search at the INDEX x, so an
+   already returned index comes back.  indices 0..3, index 1 inadmissible, reset at call 2 (max_logged = 2):
+   calls 0,1,2,3 return 0, 2, 2, 3.  (Same root cause as F-C02-7: InversionMethod passes max_logged = _max_storage.) *)
+Theorem sm_reset_refuted : exists (outside : Z -> bool) (maxf : Z) (ml : Z -> Z) (n : nat),
+  let returned := sm_run_index Z (fun i => i) outside maxf (-1) (sm_incr_calls ml n) in
+  returned = [Some 0; Some 2; Some 2; Some 3] /\ ~ NoDup returned.
+Proof.
+  exists (fun i => i =? 1), 3, (fun _ => 2), 4%nat. cbn zeta.
+  assert (E : sm_run_index Z (fun i => i) (fun i => i =? 1) 3 (-1) (sm_incr_calls (fun _ => 2) 4)
+              = [Some 0; Some 2; Some 2; Some 3]) by (vm_compute; reflexivity).
+  rewrite E. split; [reflexivity|]. intro H. inversion H as [|? ? _ H1]; subst. inversion H1 as [|? ? H2 _]; subst.
+  apply H2. left. reflexivity.
+Qed.
+
+(* ================= completeness: every admissible state exactly once ================= *)
+Section SMComplete.
+  Variable State : Type.
+  Variable project : Z -> State.
+  Variable pair : State -> Z.
+  Variable outside : State -> bool.
+  Variable maxf : Z.
+  Variable valid : State -> Prop.          (* the states the enumeration ranges over (in range, not the origin) *)
+  Hypothesis pair_project : forall i, 0 <= i <= maxf -> valid (project i) /\ pair (project i) = i.
+  Hypothesis project_pair : forall s, valid s -> 0 <= pair s /\ project (pair s) = s.
+  Hypothesis bound : forall s, valid s -> outside s = false -> pair s <= maxf.
+
+  Theorem sm_complete :
+    let returned := map project (sm_good State project outside maxf) in
+    (forall ml, (forall x, ml x <> x) -> forall n, (length returned <= n)%nat ->
+       sm_run State project outside maxf (-1) (sm_incr_calls ml n) =
+         map (fun s => (Some s, false)) returned ++ repeat (None, true) (n - length returned))
+    /\ NoDup returned
+    /\ (forall s, In s returned <-> valid s /\ outside s = false).
+  Proof.
+    assert (Hinj : forall i j, 0 <= i <= maxf -> 0 <= j <= maxf -> project i = project j -> i = j).
+    { intros i j Hi Hj E. destruct (pair_project i Hi) as [_ H1]. destruct (pair_project j Hj) as [_ H2].
+      rewrite <- H1, <- H2, E. reflexivity. }
+    destruct (sm_states_exactly_once State project outside maxf Hinj) as [Hrun [Hnd Hin]].
+    cbn zeta. split; [|split].
+    - intros ml Hml n Hn. rewrite map_length in *. rewrite map_map. apply Hrun; assumption.
+    - exact Hnd.
+    - intros s. rewrite Hin. split.
+      + intros [i [Hi [Hs Ho]]]. subst s. split; [apply pair_project; assumption | assumption].
+      + intros [Hv Ho]. destruct (project_pair s Hv) as [H0 Hp]. exists (pair s).
+        split; [split; [assumption | apply bound; assumption]|]. split; assumption.
+  Qed.
+End SMComplete.
